@@ -710,6 +710,10 @@ func errNilCut(call *ssa.Call, ev ssa.Value, flow map[ssa.Value]bool) *core.Cut 
 
 // isFreshError: the value is a newly constructed (hence non-nil) error.
 func isFreshError(v ssa.Value) bool {
+	if g := core.GlobalOf(v); g != nil {
+		// a package-level sentinel error (ErrDup, IndexError, ...) is never nil
+		return true
+	}
 	switch t := v.(type) {
 	case *ssa.Call:
 		return core.IsCallTo(t, "fmt.Errorf", "errors.New")
